@@ -181,13 +181,13 @@ ASSUME = [
 ]
 
 CLAIM = dict(
-    text='Machine-checked proof (Coq 8.16.1) that, for rd = 1, attaching an LRU or Random cache (or a StatsRecorder around one) of any capacity at any points of any valid history '
-         'leaves every returned byte, end-of-data condition, LastChunk and BlockLen value equal to those of the reader that ignores SetCache, and every call returns (cache_transparent_sync_partial; '
-         'invariant: a block is owned by exactly one of reader and cache, a cached block holds the data of the member at its key; the LRU/Random models are proved to honour the Get/Put/Peek contract). '
-         'The FIFO cache and the read-ahead reader with a cache violate the statement (recorded findings, refuted in Coq with witnesses that are replayed on the code). '
+    text='Machine-checked proof (Coq 8.16.1) that, for rd = 1, attaching an LRU, FIFO or Random cache (or a StatsRecorder around one) of any capacity at any points of any valid history '
+         'leaves every returned byte, end-of-data condition, LastChunk and BlockLen value equal to those of the reader that ignores SetCache, and every call returns (cache_transparent_sync; '
+         'invariant: a block is owned by exactly one of reader and cache, a cached block holds the data of the member at its key; the LRU/FIFO/Random models are proved to honour the Get/Put/Peek contract). '
+         'The read-ahead reader with a cache violates the statement (recorded finding, refuted in Coq with a witness that is replayed on the code). '
          'For rd > 1 a schedule-driven model is tied to the code under natural and gated schedules and the conservation of decompressors is proved for all schedules. '
          'The flat copy and the uncached run judge the implementation directly.',
     note='Partial: rd > 1 with a cache is false (deadlock / "unexpected block", design-level finding); rd > 1 without a cache is not proved to refine the flat model (correspondence under 3-4 schedules per history + safety invariant only). '
-         'FIFO excluded (finding; repair belongs to C14). Trusted: Coq kernel, hand models (validated by correspondence), abstract decompression, the harness gate and deadlock detector. No axioms.',
+         'Trusted: Coq kernel, hand models (validated by correspondence), abstract decompression, the harness gate and deadlock detector. No axioms.',
     technique='Coq proof (ownership invariant, simulation) over a hand model + vm_compute correspondence + flat-copy / uncached-run oracles',
     design='6/C03')
